@@ -26,6 +26,10 @@ class FuelExhausted(Exception):
     pass
 
 
+class SplitPoint(Exception):
+    """Raised at the first new decision below the split depth (parallel exploration)."""
+
+
 class Inconclusive(Exception):
     pass
 
@@ -98,6 +102,9 @@ class Explorer:
         self.exhausted = True
         self.fuel = 10 ** 9
         self.on_violation = None
+        self.split_depth = None
+        self.frontier = []
+        self.counters = {}
 
     # ----------------------------------------------------------------------------------------
     @property
@@ -106,7 +113,8 @@ class Explorer:
 
     def _new_solver(self):
         s = z3.Solver()
-        s.set("timeout", self.solver_timeout_ms)
+        # a resource limit rather than a wall-clock timeout: z3's timer threads do not survive fork()
+        s.set("rlimit", int(self.solver_timeout_ms) * 20000)
         for a in self.assumptions:
             s.add(a)
         return s
@@ -157,6 +165,8 @@ class Explorer:
                         on_end(self, outcome)
                 except PathAbort:
                     self.stats.aborted += 1
+                except SplitPoint:
+                    self.frontier.append(list(frame.trace[:frame.pos]))
                 finally:
                     frame.solver.pop()
         finally:
@@ -224,6 +234,8 @@ class Explorer:
             fr.dguards.append(guards[idx])
             self.add(guards[idx])
             return idx
+        if self.split_depth is not None and len(self.frames) == 1 and len(fr.trace) >= self.split_depth:
+            raise SplitPoint()
         feas = []
         first_model = None
         for i, g in enumerate(guards):
@@ -265,7 +277,7 @@ class Explorer:
         fr = self.f
         if node.uid not in fr.touched:
             fr.touched.add(node.uid)
-            for c in node.domain_constraints():
+            for c in node.domain_constraints(self):
                 self.add(c)
 
     def allowed(self, node):
@@ -292,7 +304,7 @@ class Explorer:
         yes = cur & ctors
         no = cur - ctors
         fr = self.f
-        if self.node_budget is not None and yes:
+        if self.node_budget is not None and yes and ("counted", node.uid) not in fr.locals:
             # a decided node brings its children into existence; keep the term within the budget
             yes = frozenset(c for c in yes if node.decided_cost(c, self) <= self.node_budget - fr.nodes_used)
         self.stats.decisions += 1
@@ -301,6 +313,8 @@ class Explorer:
                 idx = fr.trace[fr.pos]
                 fr.pos += 1
             else:
+                if self.split_depth is not None and len(self.frames) == 1 and len(fr.trace) >= self.split_depth:
+                    raise SplitPoint()
                 fr.worklist.append(fr.trace + [1])
                 fr.trace.append(0)
                 fr.pos += 1
@@ -350,6 +364,58 @@ class Explorer:
             self.on_violation(self, v)
         return False
 
+    def check_adaptive(self, prop, label, root, info=None, try_rlimit=40000000, max_depth=3):
+        """Like check, but splits the query by constructor tags of the input template (root first,
+        then its children) whenever the solver gives up on the undivided query."""
+        from .inputs import ARITY, CODE, CTORS
+        fr = self.f
+        neg = z_not(prop)
+        if neg is False:
+            self.stats.obligations += 1
+            self.stats.discharged += 1
+            return True
+        ok = [True]
+
+        def attempt(limit):
+            fr.solver.set("rlimit", limit)
+            try:
+                return self._check(neg)
+            finally:
+                fr.solver.set("rlimit", int(self.solver_timeout_ms) * 20000)
+
+        def rec(pending, depth):
+            r = attempt(try_rlimit if (pending and depth < max_depth) else int(self.solver_timeout_ms) * 20000)
+            if r == z3.unsat:
+                self.stats.obligations += 1
+                self.stats.discharged += 1
+                return
+            if r == z3.sat:
+                self.stats.obligations += 1
+                self.stats.sat += 1
+                model = fr.solver.model()
+                v = Violation(label, model, info(model) if callable(info) else info, list(fr.trace))
+                self.violations.append(v)
+                ok[0] = False
+                return
+            if not pending or depth >= max_depth:
+                self.stats.obligations += 1
+                self.stats.unknown += 1
+                self.exhausted = False
+                ok[0] = False
+                return
+            node = pending[0]
+            for ct in sorted(self.allowed(node), key=CTORS.index):
+                fr.solver.push()
+                fr.solver.add(node.tag == CODE[ct])
+                try:
+                    if self._check() != z3.unsat:
+                        rec(pending[1:] + [node.kid(i) for i in range(ARITY[ct])], depth + 1)
+                finally:
+                    fr.solver.pop()
+
+        rec([root], 0)
+        return ok[0]
+
     def path_model(self):
         """A model of the current path condition (None if infeasible/unknown)."""
         fr = self.f
@@ -380,6 +446,9 @@ class Explorer:
             self.f.store[cell.cid] = v
         else:
             cell.content = v
+
+    def count(self, key, n=1):
+        self.counters[key] = self.counters.get(key, 0) + n
 
     def event(self, kind, **kw):
         self.f.events.append((kind, kw))
